@@ -287,6 +287,24 @@ func TestC10Worker(t *testing.T) {
 		}
 	}
 	marker("END objects")
+	// containers of every make (keys of different types that print alike,
+	// repeated keys, NaN and zero twins, nesting) printed, listed, walked,
+	// sorted and compared: orderings and tie-breaks have nothing to say on
+	// standard error
+	marker("BEGIN containers")
+	{
+		seedc := 1
+		fmt.Sscanf(os.Getenv("VERIF_SEED"), "%d", &seedc)
+		hashes := rapid.Custom(func(rt *rapid.T) string { return drawHashLiteral(rt, 2, "Name") })
+		for i := 0; i < 300; i++ {
+			if i%50 == 0 {
+				marker(fmt.Sprintf("CALL containers %d", i))
+			}
+			h := hashes.Example(seedc*7919 + i)
+			run("h = "+h+";\ns = string(h); k = keys(h); n = 0;\nforeach a, b in h { n = n + len(string(a)) + len(string(b)); }\nprint(h, k, sort(k), reverse(k, true));\nreturn [len(h), h == h, k[0] in k, sprintf(\"%v\", h), n];", nil, map[string]interface{}{"Name": "1"})
+		}
+	}
+	marker("END containers")
 	// operations at a call depth close to the limit: whatever the engine does
 	// only when memory or the stack run short happens here
 	marker("BEGIN depths")
@@ -591,7 +609,7 @@ func init() {
 
 func TestC10(t *testing.T) {
 	defer silenceAs("strace")()
-	col := evid.New("C10", "strace", "a worker process traced with 'strace -f' executes, between BEGIN/END markers, (1) EVERY function registered in the environment (names read through the hook, so a newly registered built-in is covered automatically) with EVERY tuple of argument types up to arity 3 (8+64+512 tuples per function) and values biased to paths, URLs, host:port pairs, commands and environment names, through Execute and Run; (2) the time functions under 8 TZ settings (valid, invalid, path-like, empty); (3) generated programs mixed with print/printf/getenv/now/sprintf/replace/split/match statements; oracle over the syscall log: no open/openat/creat with a write or create flag, no read-only open outside the time-zone database, no unlink/rename/mkdir/rmdir/chmod/truncate/link/chown/utime, no socket/connect/bind/send/recv, no execve/fork/vfork and no clone without CLONE_THREAD; (4) getenv of every name in the environment and of every name derived from one by the usual conventions (NAME_FILE -> NAME, NAME -> NAME_PATH, case changes), with path-, URL- and command-valued variables planted; (5) scripts run with the DEBUG and OPTIMIZE variables set to booleans and to path-like strings; (6) host objects of every supported, unsupported and lossy field kind (struct, pointer, map), non-struct, nil, cyclic and otherwise odd objects; (7) ranges, sorts, splits, formats, concatenations, matches and environment reads made at call depths 100, 5000, 9990 and beyond the limit; (8) printing while standard output refuses every write (/dev/full behind descriptor 1) and after it works again, with and without DEBUG; inside the window every write must go to descriptor 1 (standard output is /dev/null in the worker), anything written elsewhere (standard error included) is a violation; clock/environment access is allowed; non-trivial = every call (each reached a built-in or ran a program); distinct by (function, argument-type tuple) and program")
+	col := evid.New("C10", "strace", "a worker process traced with 'strace -f' executes, between BEGIN/END markers, (1) EVERY function registered in the environment (names read through the hook, so a newly registered built-in is covered automatically) with EVERY tuple of argument types up to arity 3 (8+64+512 tuples per function) and values biased to paths, URLs, host:port pairs, commands and environment names, through Execute and Run; (2) the time functions under 8 TZ settings (valid, invalid, path-like, empty); (3) generated programs mixed with print/printf/getenv/now/sprintf/replace/split/match statements; oracle over the syscall log: no open/openat/creat with a write or create flag, no read-only open outside the time-zone database, no unlink/rename/mkdir/rmdir/chmod/truncate/link/chown/utime, no socket/connect/bind/send/recv, no execve/fork/vfork and no clone without CLONE_THREAD; (4) getenv of every name in the environment and of every name derived from one by the usual conventions (NAME_FILE -> NAME, NAME -> NAME_PATH, case changes), with path-, URL- and command-valued variables planted; (5) scripts run with the DEBUG and OPTIMIZE variables set to booleans and to path-like strings; (6) host objects of every supported, unsupported and lossy field kind (struct, pointer, map), non-struct, nil, cyclic and otherwise odd objects; (7) ranges, sorts, splits, formats, concatenations, matches and environment reads made at call depths 100, 5000, 9990 and beyond the limit; (8) 300 generated hash literals (print-alike keys of different types, repeated keys, NaN and zero twins, nesting) printed, listed, walked, sorted and compared; (9) printing while standard output refuses every write (/dev/full behind descriptor 1) and after it works again, with and without DEBUG; inside the window every write must go to descriptor 1 (standard output is /dev/null in the worker), anything written elsewhere (standard error included) is a violation; clock/environment access is allowed; non-trivial = every call (each reached a built-in or ran a program); distinct by (function, argument-type tuple) and program")
 	defer col.Flush()
 	replayKnown(t, col, "C10")
 	c, inside, markers, err := runStrace()
